@@ -50,6 +50,7 @@ class CallGraph:
         self.fx = fx
         self.out = collections.defaultdict(set)        # caller -> callees (ids, local or extern)
         self.sites = collections.defaultdict(list)      # callee -> [(caller, bb)]
+        self.direct_sites = collections.defaultdict(list)   # callee -> [(caller, bb)] explicit call terminators / trait dispatch only
         self.trait_impls = collections.defaultdict(set)  # trait method -> impl methods
         self.trait_impls_by_self = collections.defaultdict(lambda: collections.defaultdict(set))
         self.by_self = collections.defaultdict(set)     # self type head -> impl methods (all traits)
@@ -103,9 +104,11 @@ class CallGraph:
                 inst = f.get('inst')
                 tgt = inst or d
                 self._edge(k, tgt, i)
+                self.direct_sites[tgt].append((k, i))
                 if inst and inst != d:
                     # keep the declared callee visible for who-calls queries on trait methods
                     self.sites[d].append((k, i))
+                    self.direct_sites[d].append((k, i))
                 if f.get('trait') and not inst:
                     ga = f.get('ga') or []
                     selfty = ga[0] if ga else ''
@@ -113,9 +116,11 @@ class CallGraph:
                         if _is_param_or_dyn(selfty) or not selfty:
                             for m in self.trait_impls[d]:
                                 self._edge(k, m, i)
+                                self.direct_sites[m].append((k, i))
                         else:
                             for m in self.trait_impls_by_self[d].get(_head(selfty), ()):
                                 self._edge(k, m, i)
+                                self.direct_sites[m].append((k, i))
                 if tgt not in fx.fns:
                     # extern (possibly generic) callee: trait impls of local types among the
                     # generic arguments may be invoked from inside it
@@ -172,11 +177,15 @@ class CallGraph:
                     q.append(m)
         return None
 
-    def callers(self, callee_pred):
-        """[(caller, bb, callee)] for every call edge whose callee satisfies pred"""
+    def callers(self, callee_pred, synthetic=False):
+        """[(caller, bb, callee)] for every call edge whose callee satisfies pred. By default
+        only explicit call terminators and trait dispatch count (who-may-call rules); with
+        synthetic=True also closure construction, fn-item uses and the "extern generic code
+        may call any impl method of a local type" over-approximation."""
         out = []
         pred = callee_pred if callable(callee_pred) else (lambda n: n == callee_pred)
-        for c, lst in self.sites.items():
+        table = self.sites if synthetic else self.direct_sites
+        for c, lst in table.items():
             if pred(c):
                 for (a, bb) in lst:
                     out.append((a, bb, c))
